@@ -1,10 +1,15 @@
 (** C10 — validator snapshots are faithful, immutable, correctly projected to chains.
-    Only statements closed by [exact]; proofs live in Valset/SnapshotProofs.v and Evm/CompassProofs.v. *)
-From Coq Require Import List ZArith Bool.
-From Paloma Require Import Base.Num Valset.Snapshot Valset.SnapshotProofs.
+    Only statements closed by [exact]; proofs live in Valset/SnapshotProofs.v and Evm/CompassProofs.v.
+    [run ops = fold_left step ops init] ranges over all histories of staking changes, registrations,
+    active-chain changes, snapshot builds and on-chain activations; [crun] adds valset sends. *)
+From Coq Require Import List ZArith Bool Permutation Sorted String.
+From Paloma Require Import Base.Num Valset.Snapshot Valset.SnapshotProofs Evm.Compass Evm.CompassProofs.
+From Paloma Require Gen.C10.
 Import ListNotations.
 Open Scope Z_scope.
 
+(** Every snapshot lists exactly the bonded, unjailed validators that have an account on every
+    active chain, each share = the validator's bonded stake, total = their sum. *)
 Theorem snapshot_faithful : forall st, let sn := create st in
   sn_vals sn = map (snapval_of st) (filter (eligible st) (st_vals st)) /\
   (forall x, In x (sn_vals sn) <->
@@ -16,3 +21,111 @@ Theorem snapshot_faithful : forall st, let sn := create st in
   sn_chains sn = [].
 Proof. exact create_faithful. Qed.
 Print Assumptions snapshot_faithful.
+
+(** ... and every snapshot found in the store after any history is such a snapshot: the one
+    createNewSnapshot returned at its build, under the id issued then, plus added chains. *)
+Theorem stored_snapshot_is_faithful : forall ops id sn,
+  find_snapshot (run ops) id = Some sn ->
+  exists pre post cs, ops = pre ++ OBuild true :: post /\
+    st_counter (run pre) + 1 = id /\
+    sn = add_chains cs (with_id id (create (run pre))).
+Proof. exact stored_is_created. Qed.
+Print Assumptions stored_snapshot_is_faithful.
+
+(** Snapshot ids strictly increase. *)
+Theorem ids_strictly_increase : forall ops,
+  let st := run ops in
+  (let st' := step st (OBuild true) in
+   st_counter st' = st_counter st + 1 /\
+   (forall id sn, find_snapshot st id = Some sn -> id < st_counter st') /\
+   find_snapshot st (st_counter st') = None /\
+   exists sn, find_snapshot st' (st_counter st') = Some sn /\ sn_id sn = st_counter st') /\
+  (forall o, o <> OBuild true ->
+     st_counter (step st o) = st_counter st /\
+     forall id, (exists sn, find_snapshot (step st o) id = Some sn) <-> (exists sn, find_snapshot st id = Some sn)) /\
+  (forall ops', st_counter st <= st_counter (run (ops ++ ops'))).
+Proof. exact ids_increase. Qed.
+Print Assumptions ids_strictly_increase.
+
+(** The current snapshot is the one with the highest id. *)
+Theorem current_is_max_id : forall ops, let st := run ops in
+  (forall id sn, find_snapshot st id = Some sn -> id <= st_counter st /\ sn_id sn = id) /\
+  (0 < st_counter st -> exists sn, current st = Some sn /\ sn_id sn = st_counter st) /\
+  (st_counter st = 0 -> current st = None /\ forall id, find_snapshot st id = None).
+Proof. exact current_max. Qed.
+Print Assumptions current_is_max_id.
+
+(** A stored snapshot never changes except that chains are appended. *)
+Theorem stored_snapshot_immutable_but_chains : forall ops ops' id sn,
+  find_snapshot (run ops) id = Some sn ->
+  exists cs, find_snapshot (run (ops ++ ops')) id = Some (add_chains cs sn).
+Proof. exact immutable_but_chains. Qed.
+Print Assumptions stored_snapshot_immutable_but_chains.
+
+(** The validator set sent to a chain is the snapshot restricted to the validators with an account
+    there (one entry each), power = floor (share * 2^32 / total); powers sum to at most 2^32. *)
+Theorem powers_floor_and_sum_le_2p32 : forall sn c,
+  nonneg (sn_vals sn) ->
+  let total := zsum (map v_share (sn_vals sn)) in
+  transform sn c = flat_map (ideal_entry c total) (sort_desc (sn_vals sn)) /\
+  Permutation (sort_desc (sn_vals sn)) (sn_vals sn) /\
+  StronglySorted (fun a b => v_share b <= v_share a) (sort_desc (sn_vals sn)) /\
+  Permutation (transform sn c) (flat_map (ideal_entry c total) (sn_vals sn)) /\
+  (forall a p, In (a, p) (transform sn c) ->
+     exists v e, In v (sn_vals sn) /\ find (on_chain c) (v_infos v) = Some e /\ In e (v_infos v) /\
+       ei_evm e = true /\ ei_chain e = c /\ a = ei_addr e /\
+       p = v_share v * 4294967296 / total /\ 0 <= p <= 4294967296 /\
+       (0 < total -> p * total <= v_share v * 4294967296 < (p + 1) * total)) /\
+  (forall v e, In v (sn_vals sn) -> find (on_chain c) (v_infos v) = Some e ->
+     In (ei_addr e, v_share v * 4294967296 / total) (transform sn c)) /\
+  0 <= zsum (map snd (transform sn c)) <= 4294967296.
+Proof. exact powers_floor_sum. Qed.
+Print Assumptions powers_floor_and_sum_le_2p32.
+
+(** The gate: isEnoughToReachConsensus holds exactly when the (true, unwrapped) sum reaches 2^33/3. *)
+Theorem quorum_gate_exact : forall sn c, nonneg (sn_vals sn) ->
+  (is_enough (map snd (transform sn c)) = true <-> 2 ^ 33 / 3 <= zsum (map snd (transform sn c))).
+Proof. exact enough_iff_quorum. Qed.
+Print Assumptions quorum_gate_exact.
+
+(** It is only sent when those powers sum to at least two thirds of 2^32: every valset message ever
+    enqueued is the projection of the snapshot stored under its id at that moment, with quorum. *)
+Theorem sent_only_if_quorum : forall ops c id vs,
+  ops_nonneg ops ->
+  In (c, id, vs) (cs_sent (crun ops)) ->
+  exists pre post sn,
+    ops = pre ++ CSend id c true :: post /\
+    find_snapshot (cs_val (crun pre)) id = Some sn /\ sn_id sn = id /\
+    vs = transform sn c /\
+    2 ^ 33 / 3 <= zsum (map snd vs) <= 2 ^ 32.
+Proof. exact sent_had_quorum. Qed.
+Print Assumptions sent_only_if_quorum.
+
+(** The constant: thresholdForConsensus = floor(2^33/3) = 2863311530, two power units short of
+    2/3 * 2^32 times 3; maxPower = 2^32. *)
+Theorem quorum_constant_exact :
+  threshold = 2 ^ 33 / 3 /\ 3 * threshold = 2 * 2 ^ 32 - 2 /\ max_power = 2 ^ 32 /\
+  (forall s, threshold <= s <-> 2 * 2 ^ 32 <= 3 * s + 2).
+Proof. exact quorum_constant. Qed.
+Print Assumptions quorum_constant_exact.
+
+(** The source has the shape the models assume (translator output): integer normalisation, one
+    entry per validator, the eligibility conjuncts, the share source, and the only writers of the
+    snapshot store. *)
+Theorem source_shape_as_modelled :
+  Gen.C10.power_uses_float = false /\
+  Gen.C10.power_is_integer_mul_quo = true /\
+  Gen.C10.account_match_stops_at_first = true /\
+  Gen.C10.quorum_comparison = "sum >= thresholdForConsensus"%string /\
+  Gen.C10.sort_comparator = "validators[i].ShareCount.GTE(validators[j].ShareCount)"%string /\
+  Gen.C10.account_match =
+    "strings.ToLower(ext.GetChainType()) == xchainType && ext.GetChainReferenceID() == chainReferenceID"%string /\
+  Gen.C10.eligibility_conjuncts =
+    ["val.IsBonded()"; "!val.IsJailed()"; "k.ValidatorSupportsAllChains(ctx, bz)"]%string /\
+  Gen.C10.share_source = "val.GetBondedTokens()"%string /\
+  Gen.C10.total_update = "snapshot.TotalShares.Add(val.GetBondedTokens())"%string /\
+  Gen.C10.snapshot_store_writers = ["SaveModifiedSnapshot"; "SetSnapshotOnChain"; "setSnapshotAsCurrent"]%string /\
+  Gen.C10.snapshot_id_allocators = ["setSnapshotAsCurrent"]%string /\
+  Gen.C10.set_on_chain_mutations = ["snapshot.Chains = append(snapshot.Chains, chainReferenceID)"]%string.
+Proof. exact source_shape. Qed.
+Print Assumptions source_shape_as_modelled.
